@@ -199,6 +199,24 @@ def picks_scenarios(start, rng, n):
     return out
 
 
+def firstpick_scenarios(start, rng, n, trials):
+    """Picker.tla: the counter of a ready set is created by its first pickers; every change of the server list resets the counters,
+    so each trial = a change (a disabled extra endpoint comes / goes) + G pickers released together, one pick each"""
+    out = []
+    for i in range(n):
+        k = 2 + i % 2          # stub 3 is the extra endpoint that comes and goes
+        servers = {s: "on" for s in range(k)}
+        st = [{"k": "apply", "cluster": cluster("c1", servers, list(range(k)))}, {"k": "waitready", "name": "c1", "ready": list(range(k))}]
+        for t in range(trials):
+            extra = {3: "off"} if t % 2 == 0 else {}
+            g = k * rng.choice([1, 2, 4]) if t % 3 else k * 3 + 1
+            st += [{"k": "apply", "cluster": cluster("c1", {**servers, **extra}, list(range(k)))}, {"k": "waitready", "name": "c1", "ready": list(range(k))},
+                   {"k": "firstpicks", "name": "c1", "resource": "pods" if t % 4 != 3 else "deployments", "g": g}]
+        st.append({"k": "req", "id": "end-marker", "host": "nobody", "method": "GET", "path": "/version", "token": "tok-alice"})
+        out.append({"id": start + i, "stubs": 4, "tokens": TOK, "authz": [], "authzDefault": "deny", "steps": st, "k": k})
+    return out
+
+
 def project(sc, events):
     """harness events -> TraceEndpoints events"""
     out = []
@@ -347,6 +365,12 @@ def run(prop, tier, replay):
                 scs += removal_scenarios(810001, rng, 12 if tier == "quick" else 120)
             if prop == "C14":
                 scs += picks_scenarios(820001, rng, 6 if tier == "quick" else 60)
+                for variant, expect in (("loadorstore", False), ("loadstore", True)):
+                    pk = vlib.tlc("dataplane", "Picker", "Picker.cfg", workers=4, timeout=600, consts={"Variant": '"%s"' % variant})
+                    if bool(pk.violation) != expect:
+                        raise Infra("Picker.tla variant %s: unexpected result %s" % (variant, pk.violated()))
+                    states, trans = states + pk.distinct, trans + pk.generated
+                scs += firstpick_scenarios(850001, rng, 3 if tier == "quick" else 12, 40 if tier == "quick" else 150)
         binp = os.path.join(wd, "proxyh.test")
         vlib.go_test_build("./proxyh", binp)
         traces, crashed = vlib.run_test_driver(binp, scs, wd, timeout=1500)
